@@ -7002,7 +7002,7 @@ class Parser:
                             path_parts.append(exp.JSONPathKey(this=bracket_expr.name, quoted=True))
                         elif bracket_expr.is_star:
                             path_parts.append(exp.JSONPathSubscript(this=exp.JSONPathWildcard()))
-                        elif bracket_expr.is_number:
+                        elif bracket_expr.is_int:
                             path_parts.append(exp.JSONPathSubscript(this=bracket_expr.to_py()))
                         else:
                             this, path_parts = self._build_json_extract(this, path_parts)
